@@ -120,19 +120,30 @@ def gen_seq_profile(seed, nsteps=400):
         groups.append(names)
     ctxs = [x for g in groups for x in g]
     msgs = []       # (event index, form)
+    # bookkeeping only so that the script never refers to the output of a seal that was refused:
+    # the position each SENDER was last put at by the script itself
+    pos = {c: [0, False] for c, role in ctxs if role == "S"}
     boundary = [0, 1, 255, 256, 2**32 - 1, 2**32, 2**64 - 2, 2**64 - 1]
     for _ in range(nsteps):
         c, role = r.choice(ctxs)
         x = r.random()
         if x < 0.08:
             v = r.choice(boundary) if r.random() < 0.7 else r.getrandbits(64)
-            s.add("set_seq", {}, ctx=c, seq_in=list(v.to_bytes(8, "big")), ovf_in=(r.random() < 0.1 and v == 2**64 - 1))
+            ovf_in = (r.random() < 0.1 and v == 2**64 - 1)
+            s.add("set_seq", {}, ctx=c, seq_in=list(v.to_bytes(8, "big")), ovf_in=ovf_in)
+            if c in pos:
+                pos[c] = [v, ovf_in]
         elif x < 0.2:
             s.add("export", {"exporter_ctx": s.fresh(s.rlen())}, ctx=c, len=r.choice([0, 1, 16, 32, 33, 255 * NH[kdf], 255 * NH[kdf] + 1, 65536]))
         elif role == "S":
             form = r.choice(["alloc", "detached"])
             i = s.add("seal", {"pt": s.fresh(s.rlen(True), "pt"), "aad": s.fresh(s.rlen(), "aad")}, ctx=c, form=form)
-            msgs.append((i, form))
+            if not pos[c][1]:
+                msgs.append((i, form))
+                if pos[c][0] == 2**64 - 1:
+                    pos[c][1] = True
+                else:
+                    pos[c][0] += 1
         else:
             form = r.choice(["alloc", "detached"])
             if not msgs or r.random() < 0.1:
